@@ -40,6 +40,12 @@ type c12Task struct {
 	// Split: the channel is used by two goroutines at once, as its read lock allows: this task sends all its
 	// requests one after the other while a second task consumes the responses (pipelined use).
 	Split bool `json:"split,omitempty"`
+	// ResetBetween (Split): the sending goroutine calls Reset after every message ("after a communication has been
+	// completed") while the other goroutine is receiving on the channel.
+	ResetBetween bool `json:"reset_between,omitempty"`
+	// Empty > 0: the task's responses contain a packet without data and without the end-of-message flag, in front
+	// of their packet number (Empty-1) mod #packets; the packets of other channels interleave as always.
+	Empty int `json:"empty,omitempty"`
 }
 
 type c12Plan struct {
@@ -195,6 +201,14 @@ func (c12) Gen(r *Rand, idx int, tier string) interface{} {
 				at = r.Intn(total)
 			}
 			p.Unknown = append(p.Unknown, at)
+		}
+	}
+	for i := range p.Tasks {
+		if p.Tasks[i].Split && r.Pct(40) {
+			p.Tasks[i].ResetBetween = true
+		}
+		if p.Tasks[i].Rounds > 0 && r.Pct(15) {
+			p.Tasks[i].Empty = 1 + r.Intn(6)
 		}
 	}
 	if r.Pct(12) {
@@ -523,6 +537,12 @@ func (c12) Run(plan interface{}, schedSeed uint64, replay []simrt.Choice, lenien
 		}
 		body = append(body, peer.Done(0, 0, 0)...)
 		rpks := peer.Packetise(body, peer.CutsBySize(len(body), p.BodySize), peer.BufResponse, m.Channel, true)
+		if task >= 1 && task <= len(p.Tasks) && p.Tasks[task-1].Empty > 0 {
+			at := (p.Tasks[task-1].Empty - 1) % len(rpks)
+			empty := peer.MakePacket(peer.BufResponse, 0, m.Channel, 0, nil)
+			rpks = append(rpks[:at], append([][]byte{empty}, rpks[at:]...)...)
+			s.Fault("empty-packet-inside-response")
+		}
 		if envLen > 0 {
 			// the packet in which the environment change is complete: when the reader has it, the size is in force
 			got := 0
@@ -663,6 +683,8 @@ func (c12) Run(plan interface{}, schedSeed uint64, replay []simrt.Choice, lenien
 					}
 					if !tp.Split {
 						receive()
+					} else if tp.ResetBetween {
+						ch.Reset()
 					}
 					for i := 0; i < tp.Pause; i++ {
 						simrt.Yield(0)
